@@ -245,6 +245,12 @@ impl HttpConn {
         let mut write_counter = AsyncWriteCounter::new(&mut self.stream);
         let close = (500..=599).contains(&response.code);
         let result = write_http_response(&mut write_counter, response, close).await;
+        #[cfg(feature = "verif_hooks")]
+        crate::verif::emit(
+            if result.is_ok() { "RespWritten" } else { "RespFailed" },
+            u64::from(self.remote_addr.port()),
+            u64::from(response.code),
+        );
         if result.is_ok() {
             if !response.is_1xx() {
                 self.write_state = WriteState::None;
